@@ -7,8 +7,8 @@ import sympy as sp
 
 from .. import callgraph, link, rules_num, sym, unitrules
 from ..cfg import CFG, ENTRY, EXIT
-from ..core import (PKG, AnalysisError, arg_or_kw, kwarg, names_in, norm,
-                    walk_no_nested)
+from ..core import (PKG, AnalysisError, arg_or_kw, as_update, kwarg, names_in,
+                    norm, walk_no_nested)
 
 EXPLANATION = (
     "Static analysis of the blind and priorized drivers in source_finder.py, "
@@ -175,6 +175,38 @@ def r1(ctx, prog, sf):
     if isinstance(loop.iter, ast.Call) and norm(loop.iter.func) == \
             "enumerate" and isinstance(loop.target, ast.Tuple):
         idx = norm(loop.target.elts[0])
+        if gs is None and loop.iter.args:
+            # batches cut by slicing:  [g[s:s + G] for s in range(0, n, G)]
+            from .c08 import _resolve_local
+            lc = _resolve_local(pr.node, loop.iter.args[0])
+            if isinstance(lc, ast.ListComp) and len(lc.generators) == 1 and \
+                    not lc.generators[0].ifs and \
+                    isinstance(lc.elt, ast.Subscript) and \
+                    isinstance(lc.elt.slice, ast.Slice) and \
+                    isinstance(lc.generators[0].iter, ast.Call) and \
+                    norm(lc.generators[0].iter.func) == "range" and \
+                    len(lc.generators[0].iter.args) == 3:
+                var = norm(lc.generators[0].target)
+                lo_, hi_ = lc.elt.slice.lower, lc.elt.slice.upper
+                step = lc.generators[0].iter.args[2]
+                start0 = lc.generators[0].iter.args[0]
+                width = None
+                if lo_ is not None and norm(lo_) == var and \
+                        isinstance(hi_, ast.BinOp) and \
+                        isinstance(hi_.op, ast.Add):
+                    if norm(hi_.left) == var:
+                        width = hi_.right
+                    elif norm(hi_.right) == var:
+                        width = hi_.left
+                if width is not None and norm(start0) == "0":
+                    ctx.check("C03-R1", pr, "batches %s" % norm(lc, 70),
+                              norm(width) == norm(step),
+                              "slices of width %s taken every %s elements: "
+                              "islands are %s" %
+                              (norm(width), norm(step),
+                               "fitted twice or skipped"), node=lc)
+                    gs = norm(width)
+                    extra = 0
     if isinstance(istart, ast.Name):
         from .c08 import _resolve_local
         istart = _resolve_local(pr.node, istart)
@@ -454,9 +486,8 @@ def r4(ctx, prog):
                   g.dominates(wrap[0], s), "the sexagesimal strings must be "
                   "computed from the wrapped RA", node=g.stmt[s])
     w = g.stmt[wrap[0]]
-    okw = len(w.body) == 1 and isinstance(w.body[0], ast.AugAssign) and \
-        norm(w.body[0].target) == "source.ra" and \
-        isinstance(w.body[0].op, ast.Add) and norm(w.body[0].value) == "360"
+    okw = len(w.body) == 1 and as_update(w.body[0]) == (
+        "source.ra", ast.Add, "360")
     ctx.check("C03-R4", rc, "RA wrap adds 360", okw,
               "negative RA must be wrapped by +360", node=w)
     # pa_limit post-condition
@@ -464,11 +495,11 @@ def r4(ctx, prog):
     whiles = [s for s in pl.node.body if isinstance(s, ast.While)]
     p = pl.params[0]
     tests = sorted(norm(s.test).replace(" ", "") for s in whiles)
-    steps = {norm(s.test).replace(" ", ""): norm(s.body[0]).replace(" ", "")
+    steps = {norm(s.test).replace(" ", ""): as_update(s.body[0])
              for s in whiles if len(s.body) == 1}
     ok = tests == sorted(["%s<=-90" % p, "%s>90" % p]) and \
-        steps.get("%s<=-90" % p) == "%s+=180" % p and \
-        steps.get("%s>90" % p) == "%s-=180" % p
+        steps.get("%s<=-90" % p) == (p, ast.Add, "180") and \
+        steps.get("%s>90" % p) == (p, ast.Sub, "180")
     ctx.check("C03-R4", pl, "pa_limit loops %s" % steps, ok,
               "the negated loop guards must give -90 < pa <= 90 with steps "
               "of 180", node=pl.node)
@@ -480,7 +511,8 @@ def r4(ctx, prog):
     if ok:
         txt = [norm(s).replace(" ", "") for s in iff[0].body]
         ok = "%s.a,%s.b=(%s.b,%s.a)" % (src, src, src, src) in txt and \
-            "%s.pa+=90" % src in txt and \
+            any(as_update(s) == ("%s.pa" % src, ast.Add, "90")
+                for s in iff[0].body) and \
             "%s.err_a,%s.err_b=(%s.err_b,%s.err_a)" % (src, src, src, src) \
             in txt
     ctx.check("C03-R4", fx, "fix_shape swaps a/b, err_a/err_b and adds 90",
